@@ -415,6 +415,9 @@ pub struct Shared {
     pub threads_exited: Arc<AtomicUsize>,
     /// the keys the driver holds in its slots (class S), visible to the models (`Op::CancelDriver`)
     pub dkeys: Mutex<Vec<Option<ActionKey>>>,
+    /// an inner (co-simulated) run in which every message is processed returned Deadlock or
+    /// MessageLoss: text of the first such report (C06)
+    pub nested_err: Mutex<Option<String>>,
 }
 
 thread_local! {
@@ -1144,6 +1147,7 @@ pub fn build(bench: &Bench, exec: &Exec, opts: &BuildOpts, start: i64) -> Built 
         threads_seen: AtomicUsize::new(0),
         threads_exited: Arc::new(AtomicUsize::new(0)),
         dkeys: Mutex::new(Vec::new()),
+        nested_err: Mutex::new(None),
     });
 
     let mailboxes: Vec<Mailbox<Node>> = bench
@@ -1559,7 +1563,24 @@ pub fn nested_sim(shared: &Arc<Shared>, threads: u8, models: u8, events: u8, pen
     for (i, (m, b)) in ms.into_iter().zip(boxes.into_iter()).enumerate() {
         init = init.add_model(m, b, format!("inner{}", i));
     }
-    let Ok((mut sim, sched)) = init.init(MonotonicTime::EPOCH) else { return };
+    // without an injected inner fault every inner message is processed: a stall report of the
+    // inner run is a false one (the executor counts messages per thread, and this thread is a
+    // worker of the outer simulation with messages of its own in flight)
+    let note = |what: &str, e: &ExecutionError| {
+        if inner_fault == 0 && matches!(e, ExecutionError::Deadlock(_) | ExecutionError::MessageLoss(_)) {
+            let mut g = shared.nested_err.lock().unwrap();
+            if g.is_none() {
+                *g = Some(format!("{} of an inner simulation ({} models, {} thread(s)) in which every message is processed returned {:?}", what, n, threads.clamp(1, 2), e));
+            }
+        }
+    };
+    let (mut sim, sched) = match init.init(MonotonicTime::EPOCH) {
+        Ok(x) => x,
+        Err(e) => {
+            note("SimInit::init", &e);
+            return;
+        }
+    };
     if inner_fault == 1 {
         // the inner run fails with a model panic, returned to this handler as an ordinary Err
         let _ = sim.process_event(
@@ -1573,7 +1594,7 @@ pub fn nested_sim(shared: &Arc<Shared>, threads: u8, models: u8, events: u8, pen
         );
     }
     for _ in 0..events.min(4) {
-        let _ = sim.process_event(
+        let r = sim.process_event(
             Inner::on,
             InnerMsg {
                 tok: Token::new(&shared.tokens),
@@ -1582,6 +1603,9 @@ pub fn nested_sim(shared: &Arc<Shared>, threads: u8, models: u8, events: u8, pen
             },
             &first,
         );
+        if let Err(e) = &r {
+            note("process_event", e);
+        }
     }
     for k in 0..pending.min(3) {
         let _ = sched.schedule_event(
